@@ -1012,7 +1012,8 @@ class IRGenerator:
                         try:
                             underlying_dt, _ = unwrap_aliases(field.data_type)
                             if (underlying_dt.name in ('Float32', 'Float64') and
-                                    isinstance(default_value, numbers.Real)):
+                                    isinstance(default_value, numbers.Real) and
+                                    not isinstance(default_value, bool)):
                                 # You can assign int to the default value of float type
                                 # However float type should always have default value in float
                                 try:
